@@ -4,7 +4,8 @@ package main
 //
 //   The guards of config.MQTT.Validate, in source order, as a small expression language that Model/ConfigV.v
 //   interprets: the model of the validator is REGENERATED from the source.  Understood: a function body that is a
-//   sequence of `if <cond> { return <error> }` statements followed by `return nil`; <cond> built from &&, ||, !,
+//   sequence of `if <cond> { return <error> }` statements (or `switch field { case consts: ... default: return <error> }`)
+//   followed by `return nil`; <cond> built from &&, ||, !,
 //   the comparisons == != < <= > >=, fields of the receiver, constants (evaluated by go/types), and the integer
 //   conversions int(..) / uint16(..) ... of a field (widening: value preserving).  Anything else fails loudly.
 
@@ -198,8 +199,87 @@ func genValidate(l *Loader) (string, string, error) {
 		return "", "", fmt.Errorf("config.MQTT.Validate does not end with `return nil`")
 	}
 	for _, s := range stmts[:len(stmts)-1] {
-		ifs, ok := s.(*ast.IfStmt)
 		pos := l.Fset.Position(s.Pos())
+		if sw, ok := s.(*ast.SwitchStmt); ok {
+			// switch tag { case c1, c2: [return err] ... default: [return err] } with constant case values: a clause
+			// that returns an error is the guard "tag equals one of its values", a returning default the guard "tag
+			// equals none of the listed values"; clauses with an empty body accept
+			if sw.Init != nil || sw.Tag == nil {
+				return "", "", fmt.Errorf("config.MQTT.Validate: %s:%d: switch with an init statement or without a tag", pos.Filename, pos.Line)
+			}
+			tag, err := operand(sw.Tag)
+			if err != nil {
+				return "", "", fmt.Errorf("config.MQTT.Validate: %s:%d: %v", pos.Filename, pos.Line, err)
+			}
+			var all []string
+			type clause struct {
+				vals    []string
+				returns bool
+				deflt   bool
+			}
+			var cls []clause
+			for _, cs := range sw.Body.List {
+				cc, ok := cs.(*ast.CaseClause)
+				if !ok {
+					return "", "", fmt.Errorf("config.MQTT.Validate: %s:%d: switch body", pos.Filename, pos.Line)
+				}
+				c := clause{deflt: cc.List == nil}
+				for _, e := range cc.List {
+					tv, ok := cfP.Info.Types[e]
+					if !ok || tv.Value == nil {
+						return "", "", fmt.Errorf("config.MQTT.Validate: %s:%d: case value is not a constant", pos.Filename, pos.Line)
+					}
+					v, err := operand(e)
+					if err != nil {
+						return "", "", fmt.Errorf("config.MQTT.Validate: %s:%d: %v", pos.Filename, pos.Line, err)
+					}
+					c.vals = append(c.vals, v)
+					all = append(all, v)
+				}
+				switch len(cc.Body) {
+				case 0:
+				case 1:
+					ret, ok := cc.Body[0].(*ast.ReturnStmt)
+					if !ok || len(ret.Results) != 1 {
+						return "", "", fmt.Errorf("config.MQTT.Validate: %s:%d: a case body that is not `return err`", pos.Filename, pos.Line)
+					}
+					if id, ok := ret.Results[0].(*ast.Ident); ok && id.Name == "nil" {
+						return "", "", fmt.Errorf("config.MQTT.Validate: %s:%d: a case returns nil", pos.Filename, pos.Line)
+					}
+					c.returns = true
+				default:
+					return "", "", fmt.Errorf("config.MQTT.Validate: %s:%d: a case body with several statements", pos.Filename, pos.Line)
+				}
+				cls = append(cls, c)
+			}
+			fold := func(op, cmp string, vals []string) string {
+				g := ""
+				for i, v := range vals {
+					c := fmt.Sprintf("(GCmp %s %s %s)", cmp, tag, v)
+					if i == 0 {
+						g = c
+					} else {
+						g = "(" + op + " " + g + " " + c + ")"
+					}
+				}
+				return g
+			}
+			for _, c := range cls {
+				if !c.returns {
+					continue
+				}
+				if c.deflt {
+					if len(all) == 0 {
+						return "", "", fmt.Errorf("config.MQTT.Validate: %s:%d: a switch whose default always returns an error", pos.Filename, pos.Line)
+					}
+					guards = append(guards, fold("GAnd", "CNe", all))
+				} else {
+					guards = append(guards, fold("GOr", "CEq", c.vals))
+				}
+			}
+			continue
+		}
+		ifs, ok := s.(*ast.IfStmt)
 		if !ok || ifs.Init != nil || ifs.Else != nil || len(ifs.Body.List) != 1 {
 			return "", "", fmt.Errorf("config.MQTT.Validate: %s:%d: statement is not `if cond { return err }`", pos.Filename, pos.Line)
 		}
